@@ -16,8 +16,9 @@ both by the rules (the cell would lie in two regions) and for the module.
 import itertools
 
 NAME = "compass"
-STATUS = "model+differential"
-THEOREMS = []
+STATUS = "theorem"
+THEOREMS = ["Cspuz.C11.Compass.program_iff_rules", "Cspuz.C11.Compass.total"]
+LEAN_FILE = "C11_Compass"
 LEAN_CMD = "puz_compass"
 
 # (h, w, max number of compasses) such that k ** (h*w) stays small
